@@ -32,6 +32,7 @@ inductive Lax where
   | constantIndexZeroLengthArray    -- F12-18: a constant index into an array of length 0 is not checked (`max < 1`)
   | nilOperand                      -- F12-17: nil as the operand of a conversion, a type assertion, a condition, `v := nil`, an operator: Go panic
   | booleanLiteralShifted           -- F12-17: true / false as the shifted operand: Go panic
+  | typedConstantToComplex          -- F12-23: `complex64(int(0))`, a constant conversion Go allows, is rejected (false rejection)
   | callValueInConversion           -- F12-21: a call without exactly one result as the operand of a conversion (callValue is skipped)
   | comparisonOperandOfLogical      -- F12-19: `(a < b) && c` with c of a defined boolean type has type bool (Go: the defined type)
   | other
@@ -48,6 +49,7 @@ def Lax.name : Lax → String
   | .constantIndexZeroLengthArray => "constant-index-zero-length-array"
   | .nilOperand => "nil-operand"
   | .booleanLiteralShifted => "boolean-literal-shifted"
+  | .typedConstantToComplex => "typed-constant-to-complex"
   | .callValueInConversion => "call-value-in-conversion"
   | .comparisonOperandOfLogical => "comparison-operand-of-logical"
   | .other => "other"
@@ -194,6 +196,8 @@ def classifyAssert (x : Opnd) : Lax :=
 def classifyConv (t : Ty) (x : Opnd) : Lax :=
   match x.sh with
   | .nil => .nilOperand
+  | .tc v _ =>
+    if kindIsG Kind.isComplex t && kindIsG (fun k => k.isInteger || k.isFloat) v then .typedConstantToComplex else .other
   | .tv v => if v.isIface && !t.isIface then .interfaceToConcrete else .sameReflectType
   | _ => .other
 
